@@ -156,9 +156,12 @@ def paren(e):
     if MINIMAL[0]:
         return operand(e, 1)
     h = e[0]
+    if h == "fn":
+        # `x := (..) {..}(args)` would be read as a function declaration followed by `(args)`
+        return "(" + ex(e) + ")"
     if h in PRIMARY and not (h == "c" and e[1] != "void" and e[1][0] in ("i", "f")):
         return ex(e)
-    if h in POSTFIX:
+    if h in POSTFIX and h != "post":
         return ex(e)
     return "(" + ex(e) + ")"
 
@@ -237,6 +240,12 @@ def body_ok(s):
     return s[0] in ("block", "return")
 
 
+def cond(e):
+    """an expression directly followed by `{`: `() {` would be read as a function literal"""
+    t = ex(e)
+    return "(" + t + ")" if t.endswith("()") else t
+
+
 def stm(s):
     if s == "break":
         return "break"
@@ -249,13 +258,13 @@ def stm(s):
         return lines_block(s[1:])
     if h == "if":
         assert body_ok(s[2]), s
-        r = "if " + ex(s[1]) + " " + stm(s[2])
+        r = "if " + cond(s[1]) + " " + stm(s[2])
         if s[3] is not None:
             r += " else " + stm(s[3])
         return r
     if h == "ifset":
         assert body_ok(s[4]), s
-        r = f"if {s[1]}: {ty_src(s[2])} = " + ex(s[3]) + " " + stm(s[4])
+        r = f"if {s[1]}: {ty_src(s[2])} = " + cond(s[3]) + " " + stm(s[4])
         if s[5] is not None:
             r += " else " + stm(s[5])
         return r
@@ -269,20 +278,20 @@ def stm(s):
                 arms.append(", ".join(ex(v) for v in a[1]) + f" => {stm(a[2])},")
             else:
                 arms.append(f"=> {stm(a[1])},")
-        return "match " + ex(s[1]) + " { " + " ".join(arms) + " }"
+        return "match " + cond(s[1]) + " { " + " ".join(arms) + " }"
     if h == "return":
         return "return" + ("" if s[1] is None else " " + stm(s[1]))
     if h == "loop":
         return "loop " + stm(s[1])
     if h == "while":
         assert s[2][0] == "block"
-        return "while " + ex(s[1]) + " " + stm(s[2])
+        return "while " + cond(s[1]) + " " + stm(s[2])
     if h == "whileset":
         assert s[4][0] == "block"
-        return f"while {s[1]}: {ty_src(s[2])} = " + ex(s[3]) + " " + stm(s[4])
+        return f"while {s[1]}: {ty_src(s[2])} = " + cond(s[3]) + " " + stm(s[4])
     if h == "for":
         assert s[3][0] == "block"
-        return f"for {s[1]} in " + ex(s[2]) + " " + stm(s[3])
+        return f"for {s[1]} in " + cond(s[2]) + " " + stm(s[3])
     raise ValueError(s)
 
 
